@@ -202,6 +202,8 @@ func parseSubstvar(input *input, relation *Relation) error {
 		switch peek {
 		case 0:
 			return errors.New("Oh no. Reached EOF before substvar finished")
+		case ',', '|': /* the relation ended, the substvar didn't */
+			return errors.New("Oh no. Relation ended before substvar finished")
 		case '}':
 			input.Next()
 			relation.Possibilities = append(relation.Possibilities, *ret)
@@ -346,6 +348,8 @@ func parsePossibilityNumber(input *input, version *VersionRelation) error {
 		switch peek {
 		case 0:
 			return errors.New("Oh no. Reached EOF before Number finished")
+		case ',', '|': /* the relation ended, the version didn't */
+			return errors.New("Oh no. Relation ended before Number finished")
 		case ')':
 			return nil
 		case ' ', '\t', '\r', '\n':
@@ -405,6 +409,8 @@ func parsePossibilityArch(input *input, possi *Possibility) error {
 		switch peek {
 		case 0:
 			return errors.New("Oh no. Reached EOF before Arch list finished")
+		case ',', '|': /* the relation ended, the list didn't */
+			return errors.New("Oh no. Relation ended before Arch list finished")
 		case '!':
 			return errors.New("You can only negate whole blocks :(")
 		case ']', ' ', '\t', '\r', '\n': /* Let our parent deal with these */
@@ -459,6 +465,8 @@ func parsePossibilityStage(input *input, stageSet *StageSet) error {
 		switch peek {
 		case 0:
 			return errors.New("Oh no. Reached EOF before Stage finished")
+		case ',', '|': /* the relation ended, the stage set didn't */
+			return errors.New("Oh no. Relation ended before StageSet finished")
 		case '!':
 			input.Next()
 			if stage.Not {
